@@ -26,7 +26,7 @@ from vlib import sqlo
 
 PROP = 'C08'
 META = {
-    'extractors': [],
+    'extractors': ['pytx'],
     'technique': ('Lean 4 proof about an executable model of ConnectionHub.doInTransaction (hub bindings per thread and '
                   'process, body routed through the hub, commit/rollback/finally, Transaction.__del__) + exhaustive small-scope '
                   'differential correspondence with real threads + dict/raw-connection oracle'),
@@ -36,7 +36,12 @@ META = {
                    'the same exception re-raised; the hub is exactly as before; the low-level connection is released (for a '
                    'non-Exception BaseException: when Transaction.__del__ runs).'),
     'level_note': ('Trusted: Lean kernel; the hand-written model Model/Hub.lean tied to the code by the exhaustive small-scope '
-                   'correspondence; SQLite transaction semantics; CPython reference counting for Transaction.__del__.'),
+                   'correspondence AND by translation: vlib/extractors/pytx.py translates doInTransaction from the AST on every '
+                   'run into a PyTx program (Model/PyTx.lean), C08_translated_doInTransaction_eq_model proves by symbolic '
+                   'execution that running it from the image of any model world gives doInTx (all paths); the calls into other '
+                   'objects (transaction(), the body, commit(close=True), rollback(), the hub attributes) are interpreter '
+                   'parameters stated in Model/HubX.lean; SQLite transaction semantics; CPython reference counting for '
+                   'Transaction.__del__.'),
     'rule': ('case = (hub configuration T/P/TP/S of the calling thread; autoCommit 1/0/X; body over {create id 3, create id 1 '
              '(exists), update id 1, delete id 1}; raise point: none, or after k = 0..len steps an Exception subclass or a '
              'BaseException-only exception); bodies of <= 3 steps: the full product is enumerated; 4 steps (thorough: the full '
